@@ -564,6 +564,23 @@ def run_jvp_forms(ctx, i, rng):
     y_r, yt_r = jax.jvp(pure, (sub['params'], *args), (pt, *targs))
     ctx.check(close(y, y_r), 'jvp:primal:call_forms', lambda: dict(case=desc))
     ctx.check(close(yt, yt_r), 'jvp:tangent:call_forms', lambda: dict(case=desc))
+    # nn.vjp with the same filters: the variable cotangent is a tree like the one jax.vjp of apply returns (plain dicts for plain-dict
+    # variables), so that it can be combined with the parameters leaf by leaf
+    class TopV(nn.Module):
+      @nn.compact
+      def __call__(self, x, ct):
+        inner = Inner(name='inner')
+        yv, bwd = nn.vjp(lambda m, a: m(a), inner, x, variables=vfilter)
+        return yv, bwd(ct)
+    ct = jnp.ones_like(y_r) * 0.5
+    yv, (g_vars, g_x) = TopV().apply(V, x, ct)
+    y_r2, bw = jax.vjp(lambda p, a: Inner().apply({**sub, 'params': p}, a), sub['params'], x)
+    gp_r, gx_r = bw(ct)
+    ctx.op('nn.vjp(variables filter)')
+    from flax.core import unfreeze
+    ctx.check(close(yv, y_r2) and close(g_x, gx_r) and close(unfreeze(g_vars['params']), gp_r), 'vjp:values:call_forms', lambda: dict(case=desc))
+    ctx.check(jax.tree_util.tree_structure(g_vars['params']) == jax.tree_util.tree_structure(gp_r), 'vjp:cotangent_container_type',
+              lambda: dict(case=desc, got=str(jax.tree_util.tree_structure(g_vars['params']))[:120], want=str(jax.tree_util.tree_structure(gp_r))[:120]))
 
 
 def run_attr_modules(ctx, i, rng):
